@@ -197,7 +197,33 @@ def rule_H5(ctx) -> None:
         ctx.refuted("H5", "EnumType.__new__:first-declaration-wins", "overwritten", mod.loc(fn), "the value map entry is (re)assigned outside the creation branch: a later alias replaces the canonical member")
 
 
+def rule_H6(ctx) -> None:
+    """every declared value becomes a member: the member filter of EnumType.__new__ leaves out descriptors and dunder names
+    only. Names with a single leading underscore are ordinary members - the plugin generates them (`_2D`, `_1`) whenever a
+    value name does not start like an identifier"""
+    mod = ctx.repo.mod(M_ENUM)
+    fn = mod.func("EnumType.__new__")
+    ctx.analysed("EnumType.__new__")
+    prefixes = []
+    for c in ast.walk(fn):
+        if isinstance(c, ast.Call) and isinstance(c.func, ast.Attribute) and c.func.attr == "startswith" and c.args and isinstance(c.args[0], (ast.Constant, ast.Tuple)):
+            vals = [c.args[0].value] if isinstance(c.args[0], ast.Constant) else [e.value for e in c.args[0].elts if isinstance(e, ast.Constant)]
+            prefixes += [v for v in vals if isinstance(v, str)]
+        if isinstance(c, ast.Compare) and isinstance(c.left, ast.Subscript) and any(isinstance(x, ast.Constant) and x.value == "_" for x in c.comparators):
+            prefixes.append("_")
+    sunder = any(isinstance(c, ast.Call) and ast.unparse(c.func) in ("_is_sunder", "_is_private") for c in ast.walk(fn))
+    bad = [p_ for p_ in prefixes if p_ and set(p_) == {"_"} and len(p_) < 2]
+    if bad or sunder:
+        ctx.refuted("H6", "EnumType.__new__:member-filter", "single-underscore-excluded", mod.loc(fn),
+                    "names starting with a single underscore are not collected as members: the generated member `_2D` (DIMENSION_2D of enum Dimension) stays a plain int class attribute, "
+                    "is missing from the value and name tables, and lookup by number / by name / from_string fails for it", "enum Dimension { DIMENSION_2D = 2; }")
+    elif "__" in prefixes:
+        ctx.proved("H6", "EnumType.__new__:member-filter", mod.loc(fn), "dunder names and descriptors only")
+    else:
+        ctx.inconclusive("H6", "EnumType.__new__:member-filter", f"member filter not recognised (prefix tests: {prefixes})", mod.loc(fn))
+
+
 def run(ctx) -> None:
-    for name, fn in (("H1", rule_H1), ("H2", rule_H2), ("H3", rule_H3), ("H4", rule_H4), ("H5", rule_H5), ("T2", codec.rule_T2), ("T2b", codec.rule_T2b)):
+    for name, fn in (("H1", rule_H1), ("H2", rule_H2), ("H3", rule_H3), ("H4", rule_H4), ("H5", rule_H5), ("H6", rule_H6), ("T2", codec.rule_T2), ("T2b", codec.rule_T2b)):
         ctx.rules_run.append(name)
         fn(ctx)
